@@ -98,7 +98,8 @@ pub fn build_probe(cfg: &str, extra: &[&str]) -> Result<std::path::PathBuf, Stri
 }
 
 pub fn run_probe(bin: &Path, corpus: &Path) -> Result<Vec<String>, String> {
-    let out = Command::new(bin).arg(corpus).output().map_err(|e| format!("cannot run {bin:?}: {e}"))?;
+    // the probes run with TZ / TZDIR set (the harness does not): no answer may depend on them
+    let out = Command::new(bin).arg(corpus).env("TZDIR", "/tzdir-probe").env("TZ", "<+11>-11").output().map_err(|e| format!("cannot run {bin:?}: {e}"))?;
     if !out.status.success() {
         return Err(format!("probe {bin:?} failed: {}", String::from_utf8_lossy(&out.stderr).chars().take(400).collect::<String>()));
     }
